@@ -1215,7 +1215,16 @@ orc_compiler_rewrite_vars2 (OrcCompiler *compiler)
       else
         dest = compiler->insns[j].dest_args[1];
 
-      if (compiler->vars[src1].last_use == j) {
+      /* a variable that is also another source operand must stay intact
+       * while the rule computes into dest */
+      for (k = 1; k < ORC_STATIC_OPCODE_N_SRC; k++) {
+        if (compiler->insns[j].opcode->src_size[k] != 0 &&
+            compiler->insns[j].src_args[k] == src1)
+          break;
+      }
+
+      if (k == ORC_STATIC_OPCODE_N_SRC &&
+          compiler->vars[src1].last_use == j) {
         if (compiler->vars[src1].first_use == j) {
           k = orc_compiler_allocate_register (compiler, TRUE);
           compiler->vars[src1].alloc = k;
